@@ -307,7 +307,7 @@ class World(object):
             self.info['str_argument'] = 1
             self.changed += 1
             return
-        allow_frag = o in ('APPEND', 'INSERT', 'EXTEND')
+        allow_frag = o in ('APPEND', 'INSERT', 'EXTEND', 'INSERT_BEFORE', 'INSERT_AFTER', 'REPLACE', 'REMOVE', 'POP', 'SETITEM')
         tg = self.targets(allow_frag)
         if not tg:
             return
@@ -341,7 +341,7 @@ class World(object):
             t.real.insert(i, a.real)
             self._model_insert(t, min(i, n), a)
         elif o in ('INSERT_BEFORE', 'INSERT_AFTER'):
-            if t.kind != 'e' or n == 0:
+            if n == 0:
                 return
             i = op['i'] % n
             ref = t.children[i]
@@ -352,7 +352,7 @@ class World(object):
                 t.real.insertAfter(a.real, ref.real)
                 self._model_insert(t, i + 1, a)
         elif o == 'REPLACE':
-            if t.kind != 'e' or n == 0:
+            if n == 0:
                 return
             i = op['i'] % n
             old = t.children[i]
@@ -362,7 +362,7 @@ class World(object):
             self._removed_once.append(self._model_remove(t, i))
             self._model_insert(t, i, a)
         elif o == 'REMOVE':
-            if t.kind != 'e' or n == 0:
+            if n == 0:
                 return
             i = op['i'] % n
             old = t.children[i]
@@ -371,7 +371,7 @@ class World(object):
                 raise Violation('C06|return|removeChild', {'what': 'removeChild did not return the child'})
             self._removed_once.append(self._model_remove(t, i))
         elif o == 'POP':
-            if t.kind != 'e' or n == 0:
+            if n == 0:
                 return
             i = op['i'] % n
             old = t.children[i]
@@ -380,7 +380,7 @@ class World(object):
                 raise Violation('C06|return|pop', {'what': 'pop(%d) returned another node' % i})
             self._removed_once.append(self._model_remove(t, i))
         elif o == 'SETITEM':
-            if t.kind != 'e' or n == 0:
+            if n == 0:
                 return
             i = op['i'] % n
             if a.kind == 'f':
